@@ -56,18 +56,21 @@ type VRun struct {
 
 // VCase is one V-mode case: a parsed tree, the registry it includes from, the data, the runs.
 type VCase struct {
-	ID      int
-	Src     string
-	KeepFmt bool
-	Tree    []dyntpl.VerifNode
-	Reg     map[string][]dyntpl.VerifNode
-	RegKeys []string
-	Data    *DataEnv
-	Flits   map[string]float64
-	Budget  int
-	Runs    []VRun
-	Meta    map[string]any
-	Verdict []string // filled by RunCases: "ok" | "skip" | "fuel" | "bad <hex> <err> <writes>"
+	ID           int
+	Src          string
+	KeepFmt      bool
+	Tree         []dyntpl.VerifNode
+	Reg          map[string][]dyntpl.VerifNode
+	RegKeys      []string
+	Data         *DataEnv
+	Flits        map[string]float64
+	Budget       int
+	Runs         []VRun
+	Meta         map[string]any
+	Spec         string   // Gallina definition of the specification-side case (optional)
+	SpecVerdict  string   // "ok" | "na" | "bad <hex> <err>" | ""
+	ParseVerdict string   // "ok", "bad" or ""
+	Verdict      []string // filled by RunCases: "ok" | "skip" | "fuel" | "bad <hex> <err> <writes>"
 }
 
 func (vc *VCase) gallina() string {
@@ -96,6 +99,8 @@ func (vc *VCase) gallina() string {
 }
 
 var reVerdict = regexp.MustCompile(`VOk|VSkip|VFuel|VBad\s+"([0-9a-f]*)"\s+(\d+)\s+(\d+)`)
+var rePVerdict = regexp.MustCompile(`ParseOk|ParseBad`)
+var reSVerdict = regexp.MustCompile(`SpecOk|SpecNA|SpecBad\s+"([0-9a-f]*)"\s+(\d+)`)
 
 // RunCases evaluates the cases in the Gallina model: cases.v shards, one coqc each, in parallel.
 func RunCases(o *Options, cases []*VCase) error {
@@ -119,13 +124,20 @@ func RunCases(o *Options, cases []*VCase) error {
 			sem <- struct{}{}
 			defer func() { <-sem }()
 			var sb strings.Builder
-			sb.WriteString("From Coq Require Import String.\nFrom DT Require Import Model.Bytes Model.Value Model.Tree Model.Interp Model.VCase.\nLocal Open Scope string_scope.\n")
-			var names []string
+			sb.WriteString("From Coq Require Import String.\nFrom DT Require Import Model.Bytes Model.Value Model.Tree Model.Interp Model.VCase Spec.Ast Spec.RefEval Spec.SCase.\nLocal Open Scope string_scope.\n")
+			var names, snames, pnames []string
 			for _, c := range cases[j.lo:j.hi] {
 				sb.WriteString(c.gallina())
 				names = append(names, fmt.Sprintf("check_case c%d", c.ID))
+				if c.Spec != "" {
+					sb.WriteString(c.Spec)
+					snames = append(snames, fmt.Sprintf("spec_check s%d", c.ID))
+					pnames = append(pnames, fmt.Sprintf("parse_check s%d (vc_tree c%d) (vc_reg c%d)", c.ID, c.ID, c.ID))
+				}
 			}
 			fmt.Fprintf(&sb, "Definition verdicts := Eval vm_compute in %s.\nPrint verdicts.\n", gList(names))
+			fmt.Fprintf(&sb, "Definition sverdicts := Eval vm_compute in %s.\nPrint sverdicts.\n", gList(snames))
+			fmt.Fprintf(&sb, "Definition pverdicts := Eval vm_compute in %s.\nPrint pverdicts.\n", gList(pnames))
 			dir := fmt.Sprintf("%s/shard%d", o.WorkDir, ji)
 			_ = os.MkdirAll(dir, 0o755)
 			file := dir + "/cases.v"
@@ -140,7 +152,46 @@ func RunCases(o *Options, cases []*VCase) error {
 				return
 			}
 			// verdicts come back as a list of lists, in order
-			ms := reVerdict.FindAllStringSubmatch(string(out), -1)
+			outs := string(out)
+			sm := reSVerdict.FindAllStringSubmatch(outs, -1)
+			si := 0
+			for _, c := range cases[j.lo:j.hi] {
+				if c.Spec == "" {
+					continue
+				}
+				if si >= len(sm) {
+					errs[ji] = fmt.Errorf("coqc on %s: fewer spec verdicts than cases", file)
+					return
+				}
+				m := sm[si]
+				si++
+				switch m[0] {
+				case "SpecOk":
+					c.SpecVerdict = "ok"
+				case "SpecNA":
+					c.SpecVerdict = "na"
+				default:
+					c.SpecVerdict = fmt.Sprintf("bad -%s %s", m[1], m[2])
+				}
+			}
+			pm := rePVerdict.FindAllString(outs, -1)
+			pi := 0
+			for _, c := range cases[j.lo:j.hi] {
+				if c.Spec == "" {
+					continue
+				}
+				if pi >= len(pm) {
+					errs[ji] = fmt.Errorf("coqc on %s: fewer parse verdicts than cases", file)
+					return
+				}
+				if pm[pi] == "ParseOk" {
+					c.ParseVerdict = "ok"
+				} else {
+					c.ParseVerdict = "bad"
+				}
+				pi++
+			}
+			ms := reVerdict.FindAllStringSubmatch(outs, -1)
 			k := 0
 			for _, c := range cases[j.lo:j.hi] {
 				c.Verdict = nil
@@ -159,7 +210,7 @@ func RunCases(o *Options, cases []*VCase) error {
 					case m[0] == "VFuel":
 						c.Verdict = append(c.Verdict, "fuel")
 					default:
-						c.Verdict = append(c.Verdict, fmt.Sprintf("bad %s %s %s", m[1], m[2], m[3]))
+						c.Verdict = append(c.Verdict, fmt.Sprintf("bad -%s %s %s", m[1], m[2], m[3]))
 					}
 				}
 			}
